@@ -110,6 +110,7 @@ let run (path : String.t) =
       if not (c02_state_ok st) then (add "c02"; add "c08"; why := "c02_state" :: !why);
       if not (c10_state_ok st) then (add "c10"; why := "c10_state" :: !why);
       if not (obs_c02_ok evs) then (add "c02"; add "c08"; why := "obs_c02" :: !why);
+      if not (obs_c02_no_pull_while_request_waits evs) then (add "c02"; add "c09"; why := "next_request_pulled_while_one_waits_for_a_pending_replier_sink" :: !why);
       if not (obs_c10_ok evs) then (add "c10"; why := "obs_c10" :: !why);
       if not (obs_c10_rebind_justified evs) then (add "c10"; why := "c10_rebind_while_bound_replier_alive" :: !why);
       if not (obs_rr_c09_bounded_ok evs) then (add "c09"; why := "bounded" :: !why);
